@@ -115,14 +115,21 @@ def parse_inspect_output(out):
     return sug, cols
 
 
+# how the statement writes its dates is independent of the header wording: the suggestion must round-trip for all of them
+DATE_STYLES = ['%m/%d/%Y', '%Y-%m-%d', '%d.%m.%Y', '%b %d, %Y', '%d %b %Y', '%d-%b-%Y', '%B %d, %Y', '%m/%d/%y', '%a, %d %b %Y']
+
+
 def write_csv(path, headers, rnd):
+    import csv as _csv
+    import datetime as _dt
     rows = [headers]
+    style = rnd.choice(DATE_STYLES)
     for r in range(4):
         row = []
         for h in headers:
             hl = h.lower()
             if 'date' in hl:
-                row.append('0%d/1%d/2025' % (r + 1, r))
+                row.append(_dt.date(2025, r + 1, 10 + r).strftime(style))
             elif any(w in hl for w in ('amount', 'debit', 'charge', 'payment')):
                 row.append('%d.5%d' % (10 + r, r))
             elif any(w in hl for w in ('city', 'region', 'location', 'state')):
@@ -130,9 +137,8 @@ def write_csv(path, headers, rnd):
             else:
                 row.append('VALUE %s %d' % (h.split()[0].upper(), r))
         rows.append(row)
-    with open(path, 'w') as f:
-        for row in rows:
-            f.write(','.join(row) + '\n')
+    with open(path, 'w', newline='') as f:
+        _csv.writer(f, lineterminator='\n').writerows(rows)
 
 
 def replay_states(states, seed):
@@ -231,7 +237,7 @@ def cli_roundtrip(item):
 
 def run(ck):
     quick = ck.tier == 'quick'
-    ck.assumptions += ['date formats without commas; nothing after the closing brace of a column token; sign prefixes only on amount',
+    ck.assumptions += ['date formats in FORMAT STRINGS without commas (date VALUES in inspected files come in nine styles, some with commas); nothing after the closing brace of a column token; sign prefixes only on amount',
                        'header texts are drawn from a vocabulary whose membership in the detection classes is known by construction']
     ck.expect_model_violation('MC_Format/neg', tlc.run('MC_Format', 'MC_Format_neg.cfg'), 'Neg_AlwaysAccepts')
     tmp = tempfile.mkdtemp(prefix='c18_')
